@@ -97,6 +97,14 @@ class HandlerCtx:
             cache[dirn] = sx
         return cache[dirn]
 
+    @staticmethod
+    def _through_ref(ev, base, nm):
+        """a push made inside a helper through a `&mut Vec` parameter is a push to the handler field the caller passed"""
+        lv = ev.get("lv")
+        if base.get("k") == "Path" and base.get("res") == "local" and lv and lv[0] in ("key", "elem") and isinstance(lv[1], str) and lv[1].count(".") >= 2:
+            return lv[1].rsplit(".", 1)[1], True
+        return nm, False
+
     def pushes_of(self, sx, field=None):
         out = []
         for ev in sx.trace:
@@ -104,6 +112,7 @@ class HandlerCtx:
                 r = ev["recv"]
                 base = r["e"] if r.get("k") == "Index" else r
                 nm = (base.get("fdef") or "")[len(DSO):] if (base.get("fdef") or "").startswith(DSO) else (base.get("name") if base.get("k") == "Path" else None)
+                nm, _ = self._through_ref(ev, base, nm)
                 if field is None or nm == field:
                     out.append((nm, ev))
         return out
@@ -134,6 +143,7 @@ class HandlerCtx:
                 r = ev["recv"]
                 base = r["e"] if r.get("k") == "Index" else r
                 nm = (base.get("fdef") or "")[len(DSO):] if (base.get("fdef") or "").startswith(DSO) else (base.get("name") if base.get("k") == "Path" else None)
+                nm, _ = self._through_ref(ev, base, nm)
                 if field is None or nm == field:
                     out.append((nm, ev))
         return out
@@ -158,7 +168,7 @@ class HandlerCtx:
         ids = set()
         for nm, ev in self.pushes():
             r = ev["recv"]
-            if r.get("k") == "Path" and r.get("res") == "local":
+            if r.get("k") == "Path" and r.get("res") == "local" and not self._through_ref(ev, r, nm)[1]:
                 ids.add(r["id"])
         return ids.pop() if len(ids) == 1 else None
 
@@ -207,6 +217,13 @@ class PairMon(mon.Monitor):
             idx = None
             if r.get("k") == "Index":
                 idx = tast.render(r["i"])
+                r = r["e"]
+            # inside a helper walked in place a `&mut Vec` parameter stands for the field the caller passed
+            try:
+                r = self.runner.resolve(r)
+            except Exception:
+                pass
+            while r.get("k") in ("AddrOf", "DropTemps", "Paren"):
                 r = r["e"]
             if self.hc.field_is(r, self.first):
                 return ("a", idx)
